@@ -23,7 +23,7 @@ def FLOORS(tier):
     q = tier == "quick"
     f = {"constraint-histories": 350 if q else 10000, "reductions": 120 if q else 4000, "partial-substitution": 80,
          "arbitrary-float-weight": 80, "logical-method": 100, "class:PCBO": 100, "class:PCSO": 100,
-         "symbol-really-present": 300 if q else 9000}
+         "symbol-really-present": 300 if q else 9000, "independence-probes": 300, "reduction:nothing-to-reduce": 15}
     for s in C.SHAPES:
         f["shape:" + s] = 8 if q else 300
     for R in C.RELS:
@@ -159,6 +159,9 @@ def case(ctx, rng, idx):
     if dict(Hs) != snap or Hs.constraints != snap_cons:
         ctx.violation("subs:original-mutated", "the symbolic model changed under subs", w)
         return
+    if ok and Hn is Hs:
+        ctx.violation("subs:returns-the-original-object", "subs returned the model itself (later edits of the result change the original)", w)
+        return
     if nsym and not has_symbol(Hs):
         ctx.violation("subs:original-lost-symbols", "the symbolic model no longer contains its symbols", w)
         return
@@ -183,6 +186,17 @@ def case(ctx, rng, idx):
             if type(pa) is not type(pb) or not same_terms(numeric_terms(pa, tol), numeric_terms(pb, tol), exact, tol):
                 ctx.violation("subs:constraints-differ", "recorded constraint %r vs %r" % (dict(pa), dict(pb)), w)
                 return
+    # the result must be independent of the original: edit it and look at the original again
+    Hn[("__probe__",)] += 1
+    for v in Hn._constraints.values():
+        v.append(type(Hn)())
+    ctx.count("independence-probes")
+    if dict(Hs) != snap or Hs.constraints != snap_cons:
+        ctx.violation("subs:result-aliases-original", "editing the substituted model changed the original", w)
+        return
+    Hn[("__probe__",)] -= 1
+    for v in Hn._constraints.values():
+        v.pop()
     if Hn.num_ancillas != Hc.num_ancillas:
         ctx.violation("subs:num_ancillas-differs", "num_ancillas %r vs %r" % (Hn.num_ancillas, Hc.num_ancillas), w)
         return
@@ -203,6 +217,9 @@ def reduction_case(ctx, rng):
         k = tuple(rng.sample(labs, rng.randint(3, min(5, len(labs)))))
         terms[k] = rng.choice(gen.DYADIC)
     terms.update(gen.rand_terms(rng, labs, 2, lo=0, hi=2))
+    if rng.random() < 0.2:
+        terms = {k: v for k, v in terms.items() if len(k) <= 2} or {(labs[0], labs[1]): 1}
+        ctx.cat("reduction:nothing-to-reduce")
     M = gen.model_of(T, terms)
     form = rng.choice(["qubo", "quso", "pubo", "puso"])
     deg = rng.choice([2, 3])
@@ -227,6 +244,9 @@ def reduction_case(ctx, rng):
         return
     if dict(Ds) != snap:
         ctx.violation("subs:original-mutated:reduced-form", "the symbolic form changed under subs", w)
+        return
+    if Dn is Ds:
+        ctx.violation("subs:returns-the-original-object:reduced-form", "subs returned the form itself", w)
         return
     if type(Dn) is not type(Dc):
         ctx.violation("subs:type-changed:reduced-form", "subs returned %s, numeric build %s" % (type(Dn).__name__, type(Dc).__name__), w)
